@@ -1,6 +1,19 @@
 from typing import Any, Protocol  # noqa: F401
 
 
+def set_header(headers: dict[str, Any], name: str, value: Any) -> None:
+    """Set a header, replacing any entry whose name differs only in case.
+
+    HTTP header names are case-insensitive, so a later contribution (per-request header over a
+    transport default, auth plugin over either) must replace an earlier one even when the two are
+    spelled differently - otherwise both values end up on the wire.
+    """
+    lowered = name.lower()
+    for existing in [key for key in headers if key != name and key.lower() == lowered]:
+        del headers[existing]
+    headers[name] = value
+
+
 class BaseAuth(Protocol):
     """Protocol for authentication plugins."""
 
